@@ -57,7 +57,25 @@ MatchesG(d, s, sentinel, oldToo) ==
 
 Matches(d, s) == MatchesG(d, s, FALSE, FALSE)          \* the reference: current value; for updates old or new
 
+\* ---- the resource selector (docs/resources.rst): sel = [group, version ("any" = not given), nt, name], res = a served resource
+IsEvents(res) == res.plural = "events" /\ res.group \in {"", "events.k8s.io"}
+InSeq(x, s) == \E i \in DOMAIN s : s[i] = x
+SelMatches(sel, res) ==
+  /\ (sel.group = "any" \/ sel.group = res.group)
+  \* a version that is named is taken as named; otherwise only the preferred version of the group -- unless a callable decides
+  /\ (IF sel.version = "any" THEN res.preferred \/ sel.nt = "fn" ELSE sel.version = res.version)
+  /\ CASE sel.nt = "plural" -> sel.name = res.plural
+        [] sel.nt = "kind" -> sel.name = res.kind
+        [] sel.nt = "singular" -> sel.name = res.singular
+        [] sel.nt = "shortcut" -> InSeq(sel.name, res.shortcuts)
+        [] sel.nt = "category" -> InSeq(sel.name, res.categories)
+        [] sel.nt = "any" -> sel.name \in {res.kind, res.plural, res.singular} \/ InSeq(sel.name, res.shortcuts)      \* not categories
+        [] sel.nt = "everything" -> ~IsEvents(res)          \* the events of Kubernetes are never part of "everything"
+        [] sel.nt = "fn" -> ~IsEvents(res) /\ (sel.name = "true" \/ res.plural = "things")
+
 ClassifyC15(rec) ==
+  IF rec.kind = "selector" THEN (IF rec.checked # SelMatches(rec.sel, rec.res) THEN "selector_check_differs_from_the_documented_rules"
+                                 ELSE IF rec.invoked # rec.checked THEN "registry_disagrees_with_the_selector" ELSE "ok") ELSE
   IF rec.kind = "dedup" THEN (IF rec.invocations = rec.expected THEN "ok" ELSE "not_deduplicated")
   ELSE LET d == rec.decl s == rec.state IN
     IF rec.invoked = Matches(d, s) THEN "ok"
